@@ -78,15 +78,17 @@ Consume(e) ==
   \/ e.ev = "end"      /\ ~SyncPending /\ AllReturned /\ UNCHANGED vars
   \/ e.ev = "reset"    /\ Reset
 
+(* With the depth-first queue TLC expands the successor generated last first: the      *)
+(* event-consuming disjunct comes last, so an event is consumed as soon as it can be.  *)
 TraceNext ==
+  \/ /\ l <= Len(Trace) /\ sil < MaxSilent
+     /\ Internal
+     /\ UNCHANGED l /\ sil' = sil + 1
   \/ /\ l <= Len(Trace)
      /\ Consume(Trace[l])
      /\ Mark(l)
      /\ (l = Len(Trace) => PrintT("@ACCEPTED") /\ TLCSet("exit", TRUE))   \* an explanation is complete: stop searching
      /\ l' = l + 1 /\ sil' = 0
-  \/ /\ l <= Len(Trace) /\ sil < MaxSilent
-     /\ Internal
-     /\ UNCHANGED l /\ sil' = sil + 1
 
 (* acceptance: every event was consumed on some path *)
 Accepted == IF TLCGet(1) = Len(Trace) THEN TRUE
